@@ -844,3 +844,8 @@ def finish(ctx):
   ctx.need("dft_unnormalized_compared", 300)
   ctx.need("dft_dc_bin_compared", 100)
   ctx.need("dft_linearity_compared", 300)
+
+
+# extension families (second round of seeded changes), see props/c12_x.py
+from props import c12_x as _x, ext as _ext
+_ext.install(globals(), _x)
